@@ -873,6 +873,9 @@ func c03Case(drv *Driver, r *RNG, idx int) c03Line {
 	if r.Chance(8) {
 		return c03TUConfig(r, idx)
 	}
+	if r.Chance(8) {
+		return c03KeyRefs(r, idx)
+	}
 	line := c03Line{Idx: idx}
 	viaConfig := r.Chance(35)
 	var in reflect.Value
